@@ -201,12 +201,12 @@ def run(ctx):
 
     # ------------------------------------------------------------------ 1. MC
     if thorough:
-        # measured (8 workers, machine load ~70): 62k, 2.36M (3.5 min), 1.2M (1.7 min), 0.8M (0.5 min), 90k distinct states;
+        # measured (8 workers, machine load ~70): 11k, 2.36M (3.5 min), 1.2M (1.7 min), 0.8M (0.5 min), 90k distinct states;
         # (2 conns, 2 tokens, 6 packets) = 10.6M states / 5.5 min and (2,4,7) without capture faults = 3.1M / 7 min also hold (run by hand)
-        runs = [dict(conn=1, tok=2, pkts=5), dict(conn=1, tok=4, pkts=5), dict(conn=2, tok=2, pkts=5, fin=1), dict(conn=1, tok=2, pkts=7),
+        runs = [dict(conn=1, tok=2, pkts=4), dict(conn=1, tok=4, pkts=5), dict(conn=2, tok=2, pkts=5, fin=1), dict(conn=1, tok=2, pkts=7),
                 dict(conn=2, tok=3, pkts=6, dup=0, swap=0, omit=0, frag=0, fin=0)]
     else:
-        runs = [dict(conn=1, tok=2, pkts=5), dict(conn=1, tok=3, pkts=4), dict(conn=2, tok=2, pkts=4, fin=1)]
+        runs = [dict(conn=1, tok=2, pkts=4), dict(conn=1, tok=3, pkts=4), dict(conn=2, tok=2, pkts=4, fin=1)]
     acts = {}
     for i, kw in enumerate(runs):
         cov = (i == 0)      # -coverage on the first (small) run: every action of the model must fire (anti-vacuity)
